@@ -6,7 +6,7 @@ from ..common import weighted
 from ..monitors import FileLog
 
 PLAN = {
-    "quick": {"shards": 4, "cases": 700, "min_nontrivial": 600, "budget_s": 200},
+    "quick": {"shards": 8, "cases": 1500, "min_nontrivial": 6000, "budget_s": 300},
     "thorough": {"shards": 16, "cases": 9000, "min_nontrivial": 20000, "budget_s": 1200},
 }
 RULE = ("a case is a history of 2-40 steps {new KeyFile object, enter, exit (properly nested), encrypt (xor/aes/best), "
